@@ -30,6 +30,7 @@ type LinuxCase struct {
 	Files   map[string]string
 	Ops     []string
 	Spell   int
+	DupDst  bool // the target has two routes to one destination (the kernel refuses the second)
 }
 
 var lxNets = []string{"10.1.1.0/24", "10.1.2.0/24", "10.2.0.0/16", "10.1.1.1", "192.168.1.0/24", "default", "10.3.3.3"}
@@ -154,11 +155,22 @@ func GenLinuxCase(tp *tape.Tape) *LinuxCase {
 	cs.BRules = genLxRules(tp)
 	a := &linuxdev.Host{Hostname: "router", Issue: "Debian GNU/Linux 11\nmanaged by NetSPoC\n",
 		Files: map[string]string{}, Exec: map[string]bool{}}
-	a.Routes = append(a.Routes, cs.BRoutes...)
+	// Several routes to one destination in the target (e.g. one from Netspoc,
+	// one from raw).  A device can hold only one of them.
+	if len(cs.BRoutes) > 0 && tp.Next(8) == 0 {
+		r := cs.BRoutes[tp.Next(len(cs.BRoutes))]
+		r.Via = "10.9.0.4"
+		a.Routes = append(a.Routes, cs.BRoutes...)
+		cs.BRoutes = append(cs.BRoutes, r)
+		cs.DupDst = true
+		cs.Ops = append(cs.Ops, "target has a second route to "+r.Dst)
+	} else {
+		a.Routes = append(a.Routes, cs.BRoutes...)
+	}
 	a.Rules = cs.BRules.Clone()
 	// Edits.
 	for i, n := 0, tp.Next(5); i < n; i++ {
-		switch tp.Next(9) {
+		switch tp.Next(10) {
 		case 0:
 			if len(a.Routes) > 0 {
 				j := tp.Next(len(a.Routes))
@@ -223,7 +235,24 @@ func GenLinuxCase(tp *tape.Tape) *LinuxCase {
 					old := r.Opts[o]
 					switch old.Key {
 					case "--dport", "--sport":
-						r.Opts[o].Val = []string{"81", "1025:", "2000:2100"}[tp.Next(3)]
+						switch tp.Next(5) {
+						case 0: // sibling: one more trailing zero
+							v := old.Val
+							if strings.HasSuffix(v, ":") {
+								v = strings.TrimSuffix(v, ":") + "0:"
+							} else {
+								v += "0"
+							}
+							r.Opts[o].Val = v
+						case 1: // sibling: trailing zero less
+							if v := strings.TrimSuffix(old.Val, "0"); v != old.Val && v != "" && !strings.HasSuffix(v, ":") {
+								r.Opts[o].Val = v
+							} else {
+								r.Opts[o].Val = "81"
+							}
+						default:
+							r.Opts[o].Val = []string{"81", "1025:", "2000:2100"}[tp.Next(3)]
+						}
 					case "-s", "-d":
 						r.Opts[o].Val = []string{"10.1.1.2", "10.1.1.0/25", "10.77.0.0/16"}[tp.Next(3)]
 					case "--state":
@@ -250,6 +279,32 @@ func GenLinuxCase(tp *tape.Tape) *LinuxCase {
 							cs.Ops = append(cs.Ops, fmt.Sprintf("option %s of the same rule differs, too", r.Opts[o2].Key))
 						}
 					}
+				}
+			}
+		case 9: // a port of some rule differs only by a trailing zero
+			var cand [][3]int
+			for ci, c := range a.Rules.Tables[0].Chains {
+				for ri, r := range c.Rules {
+					for oi, o := range r.Opts {
+						if o.Key == "--dport" || o.Key == "--sport" {
+							cand = append(cand, [3]int{ci, ri, oi})
+						}
+					}
+				}
+			}
+			if len(cand) > 0 {
+				x := cand[tp.Next(len(cand))]
+				c := a.Rules.Tables[0].Chains[x[0]]
+				o := &c.Rules[x[1]].Opts[x[2]]
+				v := o.Val
+				if strings.HasSuffix(v, ":") {
+					v = strings.TrimSuffix(v, ":") + "0:"
+				} else if len(v) < 5 || strings.Contains(v, ":") {
+					v += "0"
+				}
+				if v != o.Val {
+					o.Val = v
+					cs.Ops = append(cs.Ops, fmt.Sprintf("port of rule %d in %s has one more trailing zero on device", x[1], c.Name))
 				}
 			}
 		case 6:
@@ -520,6 +575,12 @@ func c05Run(c *Ctx, tp *tape.Tape, _ map[string]any) *Failure {
 		"commands": len(r.Transcr), "exit": r.Res.Exit})
 	if r.Trouble != "" || r.Res.Panic != "" {
 		return fail("live-trouble", r.Trouble+firstLine(r.Res.Panic), nil)
+	}
+	if r.Res.Exit != 0 && cs.DupDst {
+		// The kernel refuses a second route to the same destination; the
+		// tool stops and says so.
+		c.Count("dup_dst_refused", 1)
+		return nil
 	}
 	if r.Res.Exit != 0 {
 		e := errorLine(r.Res.Stderr + "\n" + r.RunLog)
